@@ -254,6 +254,90 @@ def stream_sample1(ctx, built, ntables, max_rows=100, name="S-sample1"):
     return S
 
 
+def _draw_toks(log):
+    out = []
+    for e in log:
+        if e[0] == "random": out.append("u" + f2b(e[1]))
+        elif e[0] == "randint": out.append(f"i{e[3]}")
+        elif e[0] == "shuffle": out.append("p" + ",".join(map(str, e[1])))
+    return out
+
+
+def stream_sampleN(ctx, built, ntables, max_rows=80, name="S-sampleN"):
+    """the composed model of build_table (every cluster materialised, stitched or patched) against the rows the real
+    Synthesizer(...).sample() assembles, value for value, under every clustering strategy; main and derived RNGs recorded."""
+    import syndiffix.synthesizer as SY
+    from syndiffix import Synthesizer
+    from syndiffix.clustering.strategy import SingleClustering, NoClustering, DefaultClustering
+    R = ctx.rng
+    S = ctx.stream(name, "typed tables of 2..5 columns x {NoClustering, DefaultClustering, SingleClustering}: the real Synthesizer(...).sample() with the "
+                   "forest's main unsafe RNG and every derived RNG recorded; the model composes Forest.init, get_tree, harvest, analyze_tree, "
+                   "generate_microdata per cluster and _do_stitch / _do_patch across clusters from the normalised table, the fitted convertors and "
+                   "the cluster plan alone; compared: column order and every value of the assembled table; non-trivial = >= 2 clusters and >= 2 rows, "
+                   "distinct by input and strategy")
+    own = {"LEFT": "L", "RIGHT": "R", "SHARED": "S"}
+    for ti in range(ntables):
+        t = gen_typed_table(R, max_rows=max_rows, ncols=R.choice([3, 4, 5, 5, 6]))
+        strat = R.choice([NoClustering, DefaultClustering, DefaultClustering, DefaultClustering, SingleClustering])
+        # a small weight budget makes the default strategy split into several stitched clusters even for few columns
+        mk = (lambda: DefaultClustering(max_weight=R.choice([1.5, 2.0, 2.0, 3.0, 15.0]))) if strat is DefaultClustering else strat
+        try:
+            convs, data, F, kind, ft = prepare(t)
+            syn = Synthesizer(t["df"], pids=t["pids"], anonymization_params=t["ap"], bucketization_params=t["bp"], clustering=mk())
+        except RecursionError:
+            continue
+        main = TS.RecRandom(); main.setstate(syn.forest.unsafe_rng.getstate()); main.log = []
+        syn.forest.unsafe_rng = main
+        recs, cap = [], {}
+        def derive():
+            r = TS.RecRandom(main.random()); recs.append(r); return r
+        syn.forest.derive_unsafe_rng = derive
+        orig_bt = SY.build_table
+        def cap_bt(*a, **k):
+            rows, comb = orig_bt(*a, **k); cap["rows"] = rows; cap["comb"] = comb; return rows, comb
+        SY.build_table = cap_bt
+        err = None
+        try:
+            try:
+                syn.sample()
+            except (IndexError, ZeroDivisionError, ValueError) as e:
+                err = type(e).__name__
+        finally:
+            SY.build_table = orig_bt
+        cl = syn.clusters
+        key = (repr(t["df"].values.tolist()), repr(t["pids"].values.tolist()) if t["pids"] is not None else None, repr(t["ap"]), repr(t["bp"]), strat.__name__)
+        if err is not None or "rows" not in cap:
+            S.count(key, False, {"table": typed_summary(t), "strategy": strat.__name__, "skipped": err}, tag="skipped")
+            continue
+        ncols = len(syn.column_convertors)
+        ctoks = ["I"] + [str(c) for c in cl.initial_cluster]
+        for (o, sc, dc) in cl.derived_clusters:
+            ctoks += [";", own[o.name]] + [str(c) for c in sc] + [","] + [str(c) for c in dc]
+        parts = [f"{ncols} " + " ".join(conv_tok(c) for c in syn.column_convertors),
+                 " ".join("1" if b else "0" for b in syn.column_is_integral),
+                 " ".join(f2b(float(e)) for e in syn.entropy_1dim),
+                 " ".join(ctoks),
+                 " ".join(_draw_toks(main.log))]
+        for k in range(0, len(recs) - 1, 2):
+            parts.append(" ".join(str(e[3]) for e in recs[k].log if e[0] == "randint"))
+            parts.append(" ".join(_draw_toks(recs[k + 1].log)))
+        req = "sampleN " + " | ".join(parts)
+        exp = ["cols " + " ".join(str(c) for c in cap["comb"])] + [" ".join(cell_tok((v, 0.0)).rsplit(":", 1)[0] for v in row) for row in cap["rows"]] + ["left 0"]
+        S.count(key, len(cl.derived_clusters) >= 1 and len(cap["rows"]) >= 2,
+                {"table": typed_summary(t), "strategy": strat.__name__, "clusters": 1 + len(cl.derived_clusters), "rows": len(cap["rows"])},
+                tag=f"{strat.__name__}/{1 + len(cl.derived_clusters)}cl" + ("/stitched" if any(sc for _, sc, _ in cl.derived_clusters) else ""))
+        if built:
+            got = TS.split_replies(drive(TS.forest_lines(ft, F, kind) + [req], timeout=900))
+            g = got[-1] if got else ["<no reply>"]
+            g = [l if (l.startswith("cols") or l.startswith("left") or l.startswith("ERR")) else " ".join(tok.rsplit(":", 1)[0] for tok in l.split(" ")) for l in g]
+            if exp != g:
+                k = next((i for i, (a, b) in enumerate(zip(exp, g)) if a != b), min(len(exp), len(g)))
+                S.mismatch({"table": typed_summary(t), "strategy": strat.__name__, "clusters": " ".join(ctoks)}, g[k] if k < len(g) else "<missing>",
+                           exp[k] if k < len(exp) else "<missing>", f"(line {k} of {len(exp)}/{len(g)})")
+    ctx.obligation(f"correspondence {name} (composed sample() across clusters, every value exact)", "correspondence", S.d["mismatches"] == 0, f"{S.d['mismatches']} mismatches")
+    return S
+
+
 def stream_micro_synth(ctx, built, ncases, oracle=None, name="S-micro-synth"):
     """generate_microdata called directly on synthetic bucket lists: every convertor kind with encodings fitted on random columns, ranges that are
     singular / dyadic / clipped at the domain end / sharing a lower bound, null stand-ins on either side of the domain (positive and negative)."""
